@@ -396,71 +396,107 @@ type tierPlan struct {
 	bounds  []int
 }
 
+// job is one (harness, preemption bound) exploration; capS limits its wall time (0: the rest of the budget).
+type job struct {
+	harness string
+	bound   int
+	capS    float64
+}
+
+func jobs(quick bool) []job {
+	var out []job
+	add := func(h string, capS float64, bounds ...int) {
+		for _, b := range bounds {
+			out = append(out, job{h, b, capS})
+		}
+	}
+	if quick {
+		add("S1", 5, 0, 1, 2, 3)
+		add("S2", 15, 0, 1, 2)
+		add("S4", 15, 0, 1, 2)
+		add("S3a", 12, 0, 1)
+		add("S3b", 12, 0, 1)
+		add("S3c", 12, 0, 1)
+		add("S3", 25, 0)
+		return out
+	}
+	add("S1", 10, 0, 1, 2, 3)
+	add("S2", 60, 0, 1, 2, 3)
+	add("S4", 90, 0, 1, 2, 3)
+	add("S3a", 120, 0, 1, 2)
+	add("S3b", 120, 0, 1, 2)
+	add("S3c", 120, 0, 1, 2)
+	add("S6", 150, 0, 1, 2)
+	add("S7", 150, 0, 1, 2)
+	add("S5", 150, 0, 1, 2)
+	add("S3", 240, 0, 1)
+	return out
+}
+
 func c32(r *engine.Run) {
 	runtime.GOMAXPROCS(1) // the cooperative scheduler hands over between goroutines: one P avoids cross-thread wake-ups
-	var plan []tierPlan
-	if r.Quick() {
-		plan = []tierPlan{{"S1", []int{0, 1, 2}}, {"S2", []int{0, 1, 2}}, {"S3", []int{0, 1, 2}}, {"S4", []int{0, 1, 2}}}
-		r.SetBudget(70 * time.Second)
-		budgetEnd = time.Now().Add(70 * time.Second)
-	} else {
-		plan = []tierPlan{{"S1", []int{0, 1, 2, 3}}, {"S2", []int{0, 1, 2, 3}}, {"S3", []int{0, 1, 2}}, {"S4", []int{0, 1, 2, 3}},
-			{"S5", []int{0, 1, 2}}, {"S6", []int{0, 1, 2}}, {"S7", []int{0, 1, 2}}}
-		r.SetBudget(16 * time.Minute)
-		budgetEnd = time.Now().Add(16 * time.Minute)
+	budget := 75 * time.Second
+	if r.Thorough() {
+		budget = 17 * time.Minute
 	}
+	r.SetBudget(budget)
+	budgetEnd = time.Now().Add(budget)
+	js := jobs(r.Quick())
 	if v := os.Getenv("VERIF_C32_ONLY"); v != "" {
-		var p []tierPlan
-		for _, x := range plan {
-			if strings.Contains(v, x.harness) {
-				p = append(p, x)
+		var p []job
+		for _, x := range js {
+			for _, w := range strings.Split(v, ",") {
+				if w == x.harness {
+					p = append(p, x)
+				}
 			}
 		}
-		plan = p
+		js = p
 	}
-	results := runPlan(r, plan)
+	var plan []tierPlan
+	for _, x := range js {
+		if len(plan) == 0 || plan[len(plan)-1].harness != x.harness {
+			plan = append(plan, tierPlan{harness: x.harness})
+		}
+		plan[len(plan)-1].bounds = append(plan[len(plan)-1].bounds, x.bound)
+	}
+	results := runPlan(r, js)
 	report(r, plan, results)
 }
 
-// runPlan explores every (harness, bound) of the plan: bound by bound (all harnesses at bound 0 first), each
-// job by a swarm of worker processes that share one visited-state table.
-func runPlan(r *engine.Run, plan []tierPlan) map[string][]*harnessResult {
+// runPlan runs the jobs in order; a harness's higher bounds run only after the lower one was completed.
+func runPlan(r *engine.Run, js []job) map[string][]*harnessResult {
 	out := map[string][]*harnessResult{}
-	maxB := 0
-	for _, p := range plan {
-		for _, b := range p.bounds {
-			if b > maxB {
-				maxB = b
-			}
-		}
-	}
 	dead := map[string]bool{}
-	for b := 0; b <= maxB; b++ {
-		for _, p := range plan {
-			has := false
-			for _, x := range p.bounds {
-				has = has || x == b
-			}
-			if !has || dead[p.harness] {
-				continue
-			}
-			if r.OutOfTime() {
-				out[p.harness] = append(out[p.harness], &harnessResult{Harness: p.harness, Bound: b, Stats: vsched.Stats{Bound: b, Stopped: "not started: time budget"},
-					Outcomes: map[string]int64{}, Classes: map[string]int64{}, Overlaps: map[string]int64{}, Counts: map[string]int64{}})
-				continue
-			}
-			res := swarm(r, p.harness, b, bitsFor(out[p.harness]))
-			for res.Stats.Stopped == "visited table full" && res.Bits < 28 && !r.OutOfTime() {
-				res = swarm(r, p.harness, b, res.Bits+3)
-			}
-			out[p.harness] = append(out[p.harness], res)
-			fmt.Fprintf(os.Stderr, "%s bound %d: execs=%d pruned=%d skipped=%d states=%d traces=%d outcomes=%v fails=%d exhaustive=%v %s %.1fs\n", p.harness, b,
-				res.Stats.Executions, res.Stats.Pruned, res.Stats.Skipped, res.Stats.CacheStates, res.Traces, res.Outcomes, len(res.Failures), res.Stats.Exhaustive, res.Stats.Stopped, res.WallS)
-			if res.Stats.Broken != "" || !res.Stats.Exhaustive {
-				dead[p.harness] = true // higher bounds only after the lower one completed
+	total := budgetEnd
+	for _, jb := range js {
+		if dead[jb.harness] {
+			continue
+		}
+		if time.Now().After(total) {
+			out[jb.harness] = append(out[jb.harness], &harnessResult{Harness: jb.harness, Bound: jb.bound, Stats: vsched.Stats{Bound: jb.bound, Stopped: "not started: time budget"},
+				Outcomes: map[string]int64{}, Classes: map[string]int64{}, Overlaps: map[string]int64{}, Counts: map[string]int64{}})
+			dead[jb.harness] = true
+			continue
+		}
+		budgetEnd = total
+		if jb.capS > 0 {
+			if e := time.Now().Add(time.Duration(jb.capS * float64(time.Second))); e.Before(total) {
+				budgetEnd = e
 			}
 		}
+		res := swarm(r, jb.harness, jb.bound, bitsFor(out[jb.harness]))
+		for res.Stats.Stopped == "visited table full" && res.Bits < 28 && time.Now().Before(budgetEnd) {
+			res = swarm(r, jb.harness, jb.bound, res.Bits+3)
+		}
+		out[jb.harness] = append(out[jb.harness], res)
+		fmt.Fprintf(os.Stderr, "%s bound %d: execs=%d pruned=%d skipped=%d states=%d traces=%d outcomes=%v fails=%d exhaustive=%v %s %.1fs\n", jb.harness, jb.bound,
+			res.Stats.Executions, res.Stats.Pruned, res.Stats.Skipped, res.Stats.CacheStates, res.Traces, res.Outcomes, len(res.Failures), res.Stats.Exhaustive, res.Stats.Stopped, res.WallS)
+		if res.Stats.Broken != "" || !res.Stats.Exhaustive {
+			dead[jb.harness] = true
+		}
 	}
+	budgetEnd = total
 	return out
 }
 
